@@ -67,30 +67,14 @@ static int gen_size(int framesz)
 	}
 }
 
-static int run_case(const char *path, int rate, int fmt, int loop, int near_end, struct op *ops, int nops,
-		    long maxhex, uint64_t seed)
+static int run_session(xmp_context a, xmp_context b, const char *path, int rate, int fmt, int loop, int near_end,
+		       struct op *ops, int nops, long maxhex, uint64_t seed, int session)
 {
-	xmp_context a, b;
 	struct xmp_frame_info fi;
 	long need_bytes = 0, have = 0, hexbytes = 0;
 	int i, resets = 0, framesz, ret, fails = 0;
 	int idx_bound;
 	unsigned char *out;
-
-	a = xmp_create_context();
-	b = xmp_create_context();
-	if (xmp_load_module(a, path) < 0 || xmp_load_module(b, path) < 0) {
-		xmp_free_context(a);
-		xmp_free_context(b);
-		return -1;
-	}
-	if (xmp_start_player(a, rate, fmt) < 0 || xmp_start_player(b, rate, fmt) < 0) {
-		xmp_release_module(a);
-		xmp_release_module(b);
-		xmp_free_context(a);
-		xmp_free_context(b);
-		return -1;
-	}
 
 	if (near_end) {
 		/* start both contexts a few rows before the end of the last order so
@@ -184,7 +168,8 @@ static int run_case(const char *path, int rate, int fmt, int loop, int near_end,
 		nframes++;
 	}
 
-	printf("begin %d %s rate=%d fmt=%d near_end=%d seed=%llu\n", loop, path, rate, fmt, near_end, (unsigned long long)seed);
+	printf("begin %d %s rate=%d fmt=%d near_end=%d seed=%llu session=%d\n", loop, path, rate, fmt, near_end,
+	       (unsigned long long)seed, session);
 	for (i = 0; i < nframes; i++) {
 		printf("frame %d ", frames[i].lc);
 		put_hex(stdout, frames[i].data, frames[i].size);
@@ -290,58 +275,75 @@ static int run_case(const char *path, int rate, int fmt, int loop, int near_end,
 		}
 	}
 	printf("end\n");
+	free_frames();
+	(void)hexbytes;
+	return fails;
+}
 
+/* One case = one module in two twin contexts, 1..3 player sessions.  Between
+ * sessions both players are restarted (xmp_start_player on a playing context,
+ * or xmp_end_player + xmp_start_player): xmp_start_player must drop any
+ * carry-over of xmp_play_buffer, so every session starts a fresh stream. */
+static int run_case(const char *path, uint64_t seed, long maxhex)
+{
+	static struct op ops[512];
+	static const int rates[] = { 4000, 4000, 8000, 8000, 11025, 22050, 44100, 48000, 49170 };
+	xmp_context a, b;
+	int nsess, sidx, fails = 0;
+
+	a = xmp_create_context();
+	b = xmp_create_context();
+	if (xmp_load_module(a, path) < 0 || xmp_load_module(b, path) < 0) {
+		xmp_free_context(a);
+		xmp_free_context(b);
+		return -1;
+	}
+	nsess = vrng_chance(35) ? vrng_range(2, 3) : 1;
+	for (sidx = 0; sidx < nsess; sidx++) {
+		int rate = rates[vrng_below(9)], fmt = vrng_below(8);
+		int loop = vrng_chance(50) ? 0 : vrng_range(1, 3);
+		int near_end = vrng_chance(45) ? vrng_range(1, 3) : 0;
+		if (sidx > 0 && vrng_chance(50)) {
+			xmp_end_player(a);
+			xmp_end_player(b);
+		}
+		if (xmp_start_player(a, rate, fmt) < 0 || xmp_start_player(b, rate, fmt) < 0)
+			break;
+		fails += run_session(a, b, path, rate, fmt, loop, near_end, ops, -1, maxhex, seed, sidx);
+	}
 	xmp_end_player(a);
 	xmp_end_player(b);
 	xmp_release_module(a);
 	xmp_release_module(b);
 	xmp_free_context(a);
 	xmp_free_context(b);
-	free_frames();
-	(void)hexbytes;
 	return fails;
 }
 
 int main(int argc, char **argv)
 {
-	static struct op ops[512];
 	uint64_t seed;
-	int ncases, i, nmods;
+	int ncases, i, nmods, only;
 	long maxhex;
 
-	if (argc >= 3 && !strcmp(argv[1], "--replay")) {
-		/* replay file: first line "case <path> <rate> <fmt> <loop> <nops>", then "<kind> <size>" lines */
-		FILE *f = fopen(argv[2], "r");
-		char path[4096];
-		int rate, fmt, loop, nops, near_end;
-		if (!f || fscanf(f, "case %4095s %d %d %d %d %d", path, &rate, &fmt, &loop, &near_end, &nops) != 6)
-			return 2;
-		for (i = 0; i < nops && i < 512; i++)
-			if (fscanf(f, "%d %d", &ops[i].kind, &ops[i].size) != 2)
-				return 2;
-		fclose(f);
-		return run_case(path, rate, fmt, loop, near_end, ops, nops, 1L << 30, 0) != 0;
-	}
-	if (argc < 5) {
-		fprintf(stderr, "usage: %s <seed> <ncases> <maxhexbytes> <module>...\n", argv[0]);
+	if (argc < 6) {
+		fprintf(stderr, "usage: %s <seed> <ncases> <maxhexbytes> <only|-1> <module>...\n", argv[0]);
 		return 2;
 	}
 	seed = strtoull(argv[1], NULL, 10);
 	ncases = atoi(argv[2]);
 	maxhex = atol(argv[3]);
-	nmods = argc - 4;
+	only = atoi(argv[4]);
+	nmods = argc - 5;
 	for (i = 0; i < ncases; i++) {
-		static const int rates[] = { 4000, 4000, 8000, 8000, 11025, 22050, 44100, 48000, 49170 };
-		int rate, fmt, loop, near_end;
 		const char *path;
 		uint64_t cs = seed * 1000003ULL + i;
+		if (only >= 0 && i != only)
+			continue;
 		vrng_seed(cs);
-		path = argv[4 + vrng_below(nmods)];
-		rate = rates[vrng_below(9)];
-		fmt = vrng_below(8);
-		loop = vrng_chance(50) ? 0 : vrng_range(1, 3);
-		near_end = vrng_chance(45) ? vrng_range(1, 3) : 0;
-		if (run_case(path, rate, fmt, loop, near_end, ops, -1, maxhex, cs) < 0)
+		path = argv[5 + vrng_below(nmods)];
+		printf("caseidx %d\n", i);
+		if (run_case(path, cs, maxhex) < 0)
 			printf("skip %s\n", path);
 		fflush(stdout);
 	}
